@@ -447,6 +447,8 @@ package carddav
 //@   |   || (paoCalls == old(paoCalls) && mutations == old(mutations) && err != nil && local4xx(err))
 //@   ensures U2: err != nil ==> (beErr(err) || local4xx(err)) && wstatus(w) == 0
 //@   ensures U3: err == nil ==> wstatus(w) == 201
+//@   -- C13: an invalid or foreign Content-Type is refused with 400 before anything reaches the backend
+//@   ensures U4: old(mimeErr(hdr(r, "Content-Type")) != nil || mimeType(hdr(r, "Content-Type")) != "text/vcard") ==> httpCode(err) == 400 && mutations == old(mutations) && paoCalls == old(paoCalls)
 //@ func carddav.(*backend).HeadGet(b, w, r) (err)
 //@   requires R1: servedAB(b) && validReq(r) && w != nil && wstatus(w) == 0
 //@   allocates
